@@ -212,10 +212,16 @@ class Item:
 _counter = [0]
 
 
+_recycle = [None]       # when set to [k]: files are written to the paths r0.py, r1.py, ... again (see run)
+
+
 def items_of(src: str, cases, modes=("fake", "real")) -> List[Item]:
     os.makedirs(WORK, exist_ok=True)
     _counter[0] += 1
     path = os.path.join(WORK, "m%d.py" % _counter[0])
+    if _recycle[0] is not None:
+        path = os.path.join(WORK, "r%d.py" % _recycle[0][0])
+        _recycle[0][0] += 1
     with open(path, "w") as fh:
         fh.write(src)
     out = []
@@ -542,6 +548,21 @@ def run(ctx):
             fc._ends_cache.clear()
             shutil.rmtree(WORK, ignore_errors=True)
         ctx.notes.append("%d generated files" % n_files)
+        # the same file paths again with other contents (an edited and re-imported module): the source that is read must
+        # be the file's current text
+        for rnd in range(3):
+            files = []
+            for i in range(30):
+                src, cases = fc.generate(ctx.rng, True, ctx.rng.choice([1, 1, 2, 3]))
+                files.append((src, cases, "generated"))
+            _recycle[0] = [0]
+            fc._stream_cache.clear()         # the harness's own per-path caches
+            fc._ends_cache.clear()
+            try:
+                run_files(ctx, files)
+            finally:
+                _recycle[0] = None
+        ctx.notes.append("3 x 30 generated files written to the same 30 paths")
     finally:
         cleanup()
 
